@@ -1589,7 +1589,10 @@ class MindsDBParser(Parser):
 
     @_('MINUS constant %prec UMINUS')
     def constant(self, p):
-        return Constant(-p.constant.value)
+        value = p.constant.value
+        if isinstance(value, bool) or not isinstance(value, (int, float)):
+            raise ParsingException(f'Unary minus requires a numeric constant, got: {p.constant.to_string()}')
+        return Constant(-value)
 
     # update fields list
     @_('update_parameter',
